@@ -1318,3 +1318,109 @@ def oracle_c04(tables, seed, tier, deep):
 
 
 ORACLES["C04"] = oracle_c04
+
+
+# ------------------------------------------------------------------------------------------- C12
+
+def py_hash_name(repl, name):
+    """independent re-implementation of the pseudonym function (statement of C13)"""
+    import hashlib
+    n = name.lstrip("$")
+    return ".".join("%s_%s" % (repl, hashlib.sha256(part.encode("utf-8", "surrogatepass")).hexdigest()[:16]) for part in n.split("."))
+
+
+def leaf_diffs(a, b, inp=None, path=()):
+    """all positions where trees a and b differ, walking the input tree `inp` alongside POSITIONALLY (keys may be renamed);
+    entries: (path, leaf_a, leaf_b, why, input_leaf)"""
+    ka, kb = kind(a), kind(b)
+    if ka != kb:
+        return [(path, a, b, "kind", inp)]
+    if ka == "obj":
+        if a.keys() != b.keys():
+            return [(path, None, None, "keys %r vs %r" % (a.keys()[:6], b.keys()[:6]), None)]
+        out = []
+        ok = isinstance(inp, Obj) and len(inp) == len(a)
+        for i, ((k, va), (_, vb)) in enumerate(zip(a, b)):
+            out += leaf_diffs(va, vb, inp[i][1] if ok else None, path + (k,))
+        return out
+    if ka == "arr":
+        if len(a) != len(b):
+            return [(path, None, None, "len", None)]
+        out = []
+        ok = isinstance(inp, list) and not isinstance(inp, Obj) and len(inp) == len(a)
+        for i, (va, vb) in enumerate(zip(a, b)):
+            out += leaf_diffs(va, vb, inp[i] if ok else None, path + (i,))
+        return out
+    if ka == "num":
+        return [] if str(a) == str(b) else [(path, a, b, "num", inp)]
+    return [] if a == b else [(path, a, b, "leaf", inp)]
+
+
+def oracle_c12(tables, seed, tier, deep):
+    n = 1500 if (tier == "thorough" or deep) else 220
+    rng = SplitMix(seed ^ 0xC12)
+    cases = grammar_cases(seed ^ 12, n)
+    extra = []
+    for i, cs in enumerate(cases[: n // 4]):
+        # the same line as another component / without any command document: attr.ns must still be pseudonymised
+        t = Obj(list(cs.tree))
+        ungate = i % 3 == 0
+        a = Obj([(k, v) for k, v in t.get("attr") if k not in CMD_ATTRS or (i % 2 == 0 and not ungate)])
+        t.set("attr", a)
+        t.set("c", "NETWORK" if ungate else t.get("c"))
+        t.set("msg", "something else" if ungate else t.get("msg"))
+        extra.append(Case(t, cs.roles, cs.fields, cs.ns, "ns-variant"))
+    cases += extra
+    pairs = []
+    for i, cs in enumerate(cases):
+        base = [Cfg(), Cfg(n=True, b=True, i=True), Cfg(repl="X"), Cfg(re="^zq_nomatch$"), Cfg(repl="p.q_r"), Cfg(enc=3)][i % 6]
+        if i % 7 == 3 and cs.ns:
+            base = Cfg(eager=(cs.ns.split(".")[0],))
+        pairs.append((cs, base))
+    on = [(cs, Cfg(c.repl, c.n, c.b, c.i, True, c.eager, c.re, c.enc)) for cs, c in pairs]
+    r_off = run_lines(pairs)
+    r_on = run_lines(on)
+    viol, dist = [], collections.Counter()
+    names_checked = 0
+    for (cs, c0), (_, c1), a, b in zip(pairs, on, r_off, r_on):
+        ta, tb = out_text(a), out_text(b)
+        if has_dups(cs.tree):
+            continue
+        dist[cs.kind] += 1
+        if ta is None or tb is None:
+            viol.append({"site": "ns:noline", "detail": "no output line", "cfg": c1.s(), "cli_flags": c1.cli(), "input": cs.text})
+            continue
+        # (1) absence of every planted database / collection name
+        for tok, role in cs.roles.items():
+            if role != "NS":
+                continue
+            names_checked += 1
+            if tok in tb:
+                where = [(p, l) for p, l in leaves(cs.tree) if isinstance(l, str) and tok in l]
+                # an occurrence that is not a namespace position at all (e.g. the name also used as a plain value) is not ours
+                viol.append({"site": "ns-leak:" + site_of(where[0][0] if where else ()), "detail": "name %r survives with --redactNamespaces" % tok,
+                             "cfg": c1.s(), "cli_flags": c1.cli(), "input": cs.text, "output": tb})
+        # (2) consistency + confinement: the flag changes string leaves into THE pseudonym of what was there, and nothing else
+        try:
+            oa, ob = parse_json(ta), parse_json(tb)
+        except Exception as e:
+            viol.append({"site": "ns:badjson", "detail": str(e), "cfg": c1.s(), "input": cs.text})
+            continue
+        for pth, x, y, why, orig in leaf_diffs(oa, ob, dedupe(cs.tree)):
+            # the flag may change a string leaf into THE pseudonym of the input string at that position, nothing else
+            if why == "leaf" and isinstance(orig, str) and isinstance(y, str) and y == py_hash_name(c1.repl, orig):
+                dist["pseudonymised"] += 1
+                continue
+            viol.append({"site": "ns-diff:" + site_of(pth), "detail": "flag-on output differs from flag-off output other than by name -> pseudonym(name): %s %r -> %r" % (why, x, y),
+                         "cfg": c1.s(), "cli_flags": c1.cli(), "input": cs.text, "output_off": ta, "output": tb})
+        # (3) attr.ns on every line that has one
+        nsv = get_path(cs.tree, ("attr", "ns"))
+        if isinstance(nsv, str):
+            got = get_path(ob, ("attr", "ns"))
+            if got != py_hash_name(c1.repl, nsv):
+                viol.append({"site": "ns:attr.ns", "detail": "attr.ns %r -> %r, expected %r" % (nsv, got, py_hash_name(c1.repl, nsv)), "cfg": c1.s(), "cli_flags": c1.cli(), "input": cs.text, "output": tb})
+    return result(viol, 2 * len(pairs), names_checked, "grammar lines (+ the same lines as another component / without command document) run with and without --redactNamespaces under the same other flags; planted db / collection names must be absent; every difference between the two outputs must be string -> independent_pseudonym(string); distinct_nontrivial = planted names checked",
+                  dist, [pairs[0][0].text[:400]] if pairs else [])
+
+
+ORACLES["C12"] = oracle_c12
